@@ -63,7 +63,13 @@ def mutants(pattern="*"):
             caught = rc and rc[-1] == "exit=1"
             rows.append({"mutant": name, "property": prop, "caught": bool(caught), "signatures": sigs[:3], "exit": rc[-1] if rc else "?"})
             print(f"{'CAUGHT' if caught else 'MISSED'}  {name:55s} {prop}  {sigs[:2]} {rc[-1] if rc else p.stdout[-300:]}")
-    json.dump(rows, open(os.path.join(VERIF, "evidence", "selftest_mutants.json"), "w"), indent=1)
+    path = os.path.join(VERIF, "evidence", "selftest_mutants.json")
+    if pattern != "*" and os.path.exists(path):
+        # a partial run replaces the rows it has re-run and keeps the others
+        done = {(r["mutant"], r["property"]) for r in rows}
+        rows = [r for r in json.load(open(path)) if (r["mutant"], r["property"]) not in done] + rows
+        rows.sort(key=lambda r: ("-" in r["mutant"][:6], r["mutant"]))
+    json.dump(rows, open(path, "w"), indent=1)
     return 0 if all(r["caught"] for r in rows) else 1
 
 
